@@ -13,7 +13,7 @@ import (
 func init() {
 	Registry["C14"] = C14
 	Metas["C14"] = Meta{
-		Explanation: "Decides the access discipline C14 anchors, for every memory access reachable from the public API (the cache's exported functions and methods, and every exported method of the two map types): (A1) every write to a word that lock-free readers or other goroutines can read (bucket slots, meta/top-hash word, chain link, table pointer, resize flag, counter stripes) is a sync/atomic operation, or a plain store into an object allocated by the current activation that no instruction able to reach the store has yet published (checked through call sites for the plain-append / plain-counter helpers); (A2) every read of such a word is atomic, or plain with the bucket lock of that very chain in the must-lockset (the accessed bucket derives from the locked root; the lock taken is a chain's root bucket lock, never that of a bucket reached through a link), or on an unpublished object; (A3) immutable-after-publication fields (table header, immutable entries, map and cache header fields) are written only before publication; (A4) pointers stored into slots are nil or the address of an allocation of the current call (unique live value pointers); (A5) the settings live in sync/atomic typed fields (of the cache struct or of a struct nested in it by value) and are touched only through their atomic methods, an atomic.Value with one dynamic type per cache type; (A6) variables shared with the janitor goroutine are not written after the go statement; (A7) operands of 64-bit atomics are 8-byte aligned under the 386 layout. NOT decided: the race detector's verdict on executions, races inside user callbacks or on user values, correctness of the locks themselves (C13).",
+		Explanation: "Decides the access discipline C14 anchors, for every memory access reachable from the public API (the exported functions and methods of package cache, and every method of the two map types that the public cache.Map / cache.MapOf interfaces list; exported methods of the internal types that are not in those interfaces, such as Stats, are out of scope and listed as such): (A1) every write to a word that lock-free readers or other goroutines can read (bucket slots, meta/top-hash word, chain link, table pointer, resize flag, counter stripes) is a sync/atomic operation, or a plain store into an object allocated by the current activation that no instruction able to reach the store has yet published (checked through call sites for the plain-append / plain-counter helpers); (A2) every read of such a word is atomic, or plain with the bucket lock of that very chain in the must-lockset (the accessed bucket derives from the locked root; the lock taken is a chain's root bucket lock, never that of a bucket reached through a link), or on an unpublished object; (A3) immutable-after-publication fields (table header, immutable entries, map and cache header fields) are written only before publication; (A4) pointers stored into slots are nil or the address of an allocation of the current call (unique live value pointers); (A5) the settings live in sync/atomic typed fields (of the cache struct or of a struct nested in it by value) and are touched only through their atomic methods, an atomic.Value with one dynamic type per cache type; (A6) variables shared with the janitor goroutine are not written after the go statement; (A7) operands of 64-bit atomics are 8-byte aligned under the 386 layout. NOT decided: the race detector's verdict on executions, races inside user callbacks or on user values, correctness of the locks themselves (C13).",
 		Rule:        "one obligation per (rule, function, access path, access kind) over all accesses in API-reachable function bodies; non-trivial = a shared-word access or settings use whose verdict depended on its lock context, atomicity or provenance",
 		Assumptions: []string{"Go memory model: sync/atomic operations and mutex/spin-lock (CAS) pairs order the accesses they guard", "C13.L1 lock pairing holds (checked separately)", "functions unreachable from the public API (Stats) are out of scope"},
 	}
